@@ -38,6 +38,10 @@ def execute(b):
             aroot.getRankAttrs().setFormat("U")
         pz = lambda: {"rank0": 0, "root": proj.proj_fiber(zroot), "ranks": []}   # noqa: E731
         pa = lambda: {"rank0": 0, "root": proj.proj_fiber(aroot), "ranks": []}   # noqa: E731
+    return run_on(b, zroot, aroot, pz, pa, script, depth, emb, dz, da)
+
+
+def run_on(b, zroot, aroot, pz, pa, script, depth, emb, dz, da):
     out = {"tid": b["tid"], "z0": b["z0"], "a": b["a"], "script": b["script"], "depth": depth, "emb": emb, "dz": dz, "da": da, "au": 1 if b.get("au") else 0, "ash": b.get("ash", 0),
            "a0": pa(), "offers": [], "mids": [], "exc": "ok"}
 
@@ -78,3 +82,47 @@ def execute(b):
     out["zact"] = _act(zroot)
     out["aact"] = _act(aroot)
     return out
+
+
+def gen_script(a_tree, depth, rng):
+    """a loop body for the source as it is NOW (chosen from its projected state: input generation, not an expected value)"""
+    def empty(p):
+        return p["v"] == 0 if p["k"] == "L" else all(empty(q) for _, q in p["e"])
+    script = []
+
+    def rec(t, path, lvl):
+        for c, p in t["e"]:
+            if empty(p):
+                continue
+            if lvl == 1:
+                ch = rng.choice(["leave", "assign", "accum", "zero", "zero"])
+                script.append({"p": path + [c], "ch": ch, "v": rng.randint(1, 2) if ch in ("assign", "accum") else 0})
+            else:
+                ch = rng.choice(["leave", "descend", "descend", "descend"])
+                script.append({"p": path + [c], "ch": ch, "v": 0})
+                if ch == "descend":
+                    rec(p, path + [c], lvl - 1)
+    rec(a_tree, [], depth)
+    return script
+
+
+def execute_session(case):
+    """several tensors that take turns as destination and source of populate loops (a tensor that was a source becomes a destination whose leaves are reset, then a
+    source again ...).  Every step is logged as a program of its own whose z0 / a are the projected states of the real objects just before the step."""
+    import random
+    depth = case["depth"]
+    ts = [proj.build_tensor(t, IDS[:depth], name="T%d" % k) for k, t in enumerate(case["trees"])]
+    recs = []
+    for n, st in enumerate(case["steps"]):
+        zt, at = ts[st["dst"]], ts[st["src"]]
+        z0 = proj.strip(proj.proj_tensor(zt)["root"])
+        a0 = proj.strip(proj.proj_tensor(at)["root"])
+        sc = gen_script(a0, depth, random.Random(st["seed"]))
+        b = {"tid": 0, "z0": z0, "a": a0, "script": sc}
+        script = {tuple(x["p"]): x for x in sc}
+        r = run_on(b, zt.getRoot(), at.getRoot(), (lambda zt=zt: proj.proj_tensor(zt)), (lambda at=at: proj.proj_tensor(at)), script, depth, "tensor", 0, 0)
+        r["session_step"] = n + 1
+        recs.append(r)
+        if r["exc"] != "ok":
+            break
+    return {"tid": case["tid"], "records": recs}
